@@ -135,3 +135,4 @@ MANIFEST = {
             'end (thorough tier cross-checks it against CBC on every solve of 15% of the cases; '
             'a disagreement is reported as a harness error, not a violation).',
 }
+MANIFEST['text'] += (' ' + 'Cases may carry a second (decoy) Solver object, a sibling instance or earlier solve() calls; a shape combines ties of three or more, lower quotas and -stab.')
